@@ -13,6 +13,8 @@ var nodes = map[string]nodeCfg{
 	"scalar":       {Bin: "asm", Env: []string{"GODEBUG=cpu.avx2=off,cpu.avx=off,cpu.ssse3=off"}},
 	"noaes":        {Bin: "asm", Env: []string{"GODEBUG=cpu.aes=off"}},
 	"noclmul":      {Bin: "asm", Env: []string{"GODEBUG=cpu.pclmulqdq=off"}},
+	"noclmul-avx":  {Bin: "asm", Env: []string{"GODEBUG=cpu.pclmulqdq=off,cpu.avx2=off"}}, // table-driven GCM over the 4-block AVX batch
+	"noclmul-sse":  {Bin: "asm", Env: []string{"GODEBUG=cpu.pclmulqdq=off,cpu.avx2=off,cpu.avx=off"}},
 	"noadx":        {Bin: "asm", Env: []string{"GODEBUG=cpu.adx=off"}},
 	"nobmi2":       {Bin: "asm", Env: []string{"GODEBUG=cpu.bmi2=off"}},
 	"aesni1":       {Bin: "asm", Env: []string{"FORCE_SM4BLOCK_AESNI=1"}},
